@@ -114,6 +114,22 @@ CHECKS = {
         note="Trusted: Python int / Fraction / complex arithmetic, math.gcd / math.lcm, "
              "cmath.exp, the plain EvaluationMapper for evaluating sym_fft output. "
              "Non-termination is judged by a 4000-call budget (13x the largest terminating run)."),
+    "C08": dict(
+        category="exploration", design="DESIGN.md 4/C08",
+        technique="bounded-exhaustive enumeration of (expression tree, substitution map) pairs x "
+                  "entry forms, compared with an independent simultaneous substitution on specs and "
+                  "with evaluation under rebound names",
+        text="Every evaluable node shape over the leaves {x, y, arr[0], arr[x], obj.a, 2} and "
+             "every (parent, position, child) nesting is substituted under every map with one or "
+             "two keys (names, Variables, subscript and look-up nodes; values that mention other "
+             "keys, swaps included) through five entry forms (plain/cached mapper, dict, keyword, "
+             "explicit mapper class). The result must equal in value the original evaluated with "
+             "the replaced names rebound (the statement's own formulation, on the box), every "
+             "maximal key-free subtree must come back as the identical object, and all forms "
+             "must agree structurally.",
+        note="Trusted: vf/refsem.py; the reference substitution on specs is cross-validated "
+             "against the rebinding formulation on every variable-only map. The memoizing forms "
+             "are given inputs in which equal subtrees are one object."),
 }
 
 NOT_BUILT_REASON = "check not built yet in this revision (planned, see DESIGN.md section 4)"
